@@ -2,44 +2,51 @@
 (***************************************************************************)
 (* C05 - two indexed reflections determine the orientation (Busing-Levy).  *)
 (*                                                                         *)
-(* MODELS   ImageD11/unitcell.py                                           *)
-(*   136-149  cosangles_many      cos of the angle of every hkl pair       *)
-(*   528-549  getanglehkls        per ring pair cache of filter_pairs      *)
-(*   551-611  orient              nearest / crange lookup, UBIlist         *)
-(*   671-681  BTmat               (float triad: finished by the harness)   *)
-(*   689-755  filter_pairs        sort, cut into blocks, keep one pair per *)
-(*                                class of "indexes the same"              *)
-(*   758-777  ubi_equiv           de-duplication of the candidates         *)
+(* MODELS   ImageD11/unitcell.py  (function : lines at the checked tree)   *)
+(*   cosangles_many 136-149   cos of the angle of every hkl pair           *)
+(*   getanglehkls   497-518   per ring pair cache of filter_pairs          *)
+(*   orient         520-580   nearest / crange lookup, UBIlist             *)
+(*   BTmat          640-650   (float triad: finished by the harness)       *)
+(*   filter_pairs   658-724   sort, cut into blocks, keep one pair per     *)
+(*                            class of "indexes the same"; block ends 678  *)
+(*   ubi_equiv      727-746   de-duplication of the candidates             *)
 (*          src/cdiffraction.c 240-275 quickorient (float triad, harness)  *)
 (*                                                                         *)
 (* ARITHMETIC  a cell is an integer symmetric positive definite reciprocal *)
 (* metric G ( = gi * scale ); Q(h) = h.G.h .  A ring is the set of allowed *)
 (* hkl with one value of Q (the harness scales the cell so that distinct Q *)
 (* are further apart than makerings' tolerance and verifies the real ring  *)
-(* table against Rings below).  Inside one ring pair Q1, Q2 are constant,  *)
-(* so  cos(ha,hb) = N/sqrt(Q1 Q2) with N = ha.G.hb : sorting by cosine is  *)
-(* sorting by the integer N, blocks of equal angle are blocks of equal N,  *)
-(* |cos| < 0.98  <=>  2500 N^2 < 2401 Q1 Q2, and                           *)
+(* table against the rings below).  Inside one ring pair Q1, Q2 are        *)
+(* constant, so cos(ha,hb) = N/sqrt(Q1 Q2) with N = ha.G.hb : sorting by   *)
+(* cosine is sorting by the integer N, blocks of equal angle are blocks of *)
+(* equal N,  |cos| < 0.98  <=>  2500 N^2 < 2401 Q1 Q2,  and                *)
 (* |cos_k - cos_obs| < cr/1000  <=>  10^6 (Nk-Nobs)^2 < cr^2 Q1 Q2.        *)
 (*                                                                         *)
-(* "Indexes the same" (filter_pairs 736-748: the orientation made from the *)
-(* block's first pair with the BT matrix of pair x indexes the 15 probe    *)
-(* vectors HKL0 of an already kept orientation, HKL0 containing the three  *)
-(* basis vectors) is modelled by its meaning: pairs x, y are equivalent    *)
-(* iff some M in Aut+(G) = { M integer : M^T G M = G, det M = +1 } has     *)
-(* M x1 = y1 and M x2 = y2 (hkl are columns; g = B h, R B = B M).          *)
-(* Aut+(G) is computed by brute force: the columns of M are images of the  *)
-(* basis vectors, searched in a box that provably contains every vector of *)
-(* the same length (AutBoxOK).  ubi_equiv is the same relation on          *)
-(* orientations: candidates from pairs x, y (any blocks) describe the same *)
-(* lattice iff some M in Aut+(G) maps the triad of x on the triad of y     *)
-(* (M x1 = y1 and M x2 in the half plane of y1,y2) - UbiEquiv.             *)
+(* "Indexes the same" (filter_pairs: the orientation made from the block's *)
+(* first pair with the BT matrix of pair x indexes the 15 probe vectors    *)
+(* HKL0 of an already kept orientation, HKL0 containing the three basis    *)
+(* vectors) is modelled by its meaning: pairs x, y are equivalent iff some *)
+(* M in Aut+(G) = { M integer : M^T G M = G, det M = +1 } has M x1 = y1    *)
+(* and M x2 = y2 (hkl are columns; g = B h, R B = B M).  Aut+(G) is        *)
+(* computed by brute force: the columns of M are images of the basis       *)
+(* vectors, searched in a box that provably contains every vector of the   *)
+(* same length (AutBox / BoxOK); CellLaws re-checks the result against the *)
+(* brute force over all matrices with entries -1..1 and the group axioms.  *)
+(* ubi_equiv is the same relation on orientations: candidates from pairs   *)
+(* x, y (any blocks) describe the same lattice iff some M in Aut+(G) maps  *)
+(* the triad of x on the triad of y (M x1 = y1 and M x2 in the half plane  *)
+(* of y1, y2) - UbiEquiv.                                                  *)
 (*                                                                         *)
 (* VARIABLES                                                               *)
-(*   cs    : the case [cell, r1, r2, tie, bug, t]  (t = trace line or 0)   *)
-(*   pc    : "cell" (ghost: print the cell table) | "sort" | "open" |      *)
-(*           "test" | "crash" | "done" | "cand" | "out" | "badtrace"       *)
-(*   order : the hkl pairs <<ha,hb>> in sorted order (c2as / hi / hj)      *)
+(*   cs    : the case [cell (record), r1, r2, tie, bug, t] (t = trace line)*)
+(*   tab   : tables of the case, computed once in Init: [q1, q2, h1, h2,   *)
+(*           aut] (ring Q values, ring hkl sequences, Aut+(G)); in the     *)
+(*           ghost "cell" states [qs, rings, aut] of the whole cell        *)
+(*   pc    : "cell"/"celldone" (ghost: print the cell table) | "sort" |    *)
+(*           "cluster" | "open" | "test" | "crash" | "done" | "cand" |     *)
+(*           "out" | "badtrace" | "cache" (second machine, see below)      *)
+(*   order : the sorted pairs, order[x+1] = <<N, f, ha, hb>> : c2as[x],    *)
+(*           the flat index order[x], h1[hi[x]], h2[hj[x]]                 *)
 (*   inds  : the block ends (`inds`, 0-based as in the code)               *)
 (*   bi    : position in inds (the `for i in inds` loop), i = inds[bi]     *)
 (*   p, j  : `p` (block start) and `j` (pair under test), 0-based          *)
@@ -50,9 +57,12 @@
 (*           kept (`best`), classes left by ubi_equiv                      *)
 (*                                                                         *)
 (* ACTIONS (one per branch of filter_pairs' loop body / stage of orient)   *)
-(*   PrintCell | SortPairs | SkipBlock (|cos| >= 0.98) | KeepSingle        *)
-(*   (len(c) = 1) | KeepCrash (len(c) = 0: c.max() raises) | KeepFirst |   *)
-(*   TestSame | TestNew | CloseBlock | Finish | Lookup | Dedup             *)
+(*   PrintCell | SortPairs | Cluster (dc, inds; validates the order) |     *)
+(*   SkipBlock (|cos| >= 0.98) | KeepSingle (len(c) = 1) | KeepCrash       *)
+(*   (len(c) = 0: c.max() raises) | KeepFirst | TestSame | TestNew |       *)
+(*   CloseBlock | Finish | Lookup | Dedup                                  *)
+(*   second machine (INIT InitCache, NEXT NextCache): CGet(key) | CRetol   *)
+(*   - the getanglehkls cache protocol, invariant CacheFresh               *)
 (*                                                                         *)
 (* TIE ORDER  np.argsort is not stable and mathematically equal cosines    *)
 (* differ in the last bits, so the order inside a block is not determined  *)
@@ -60,29 +70,37 @@
 (* TieRules ("fwd" flat index ascending, "rev" descending) - the property  *)
 (* is checked for both.  MODE = "trace": the sorted order recorded from    *)
 (* the real code (ndjson file IOEnv.TRACE_FILE, one line per ring pair:    *)
-(* {cell, r1, r2, order:[[ha,hb],..]}) is validated (ValidTrace: it is a   *)
-(* permutation of Ring(r1) x Ring(r2) and N never decreases) and the       *)
-(* model is run on it; the harness compares the kept list, order included. *)
+(* {cell, r1, r2, order:[[ha,hb],..]}) is validated (ValidOrder: it is a   *)
+(* permutation of ring1 x ring2 and N never decreases) and the model is    *)
+(* run on it; the harness compares the kept list, order included.          *)
 (*                                                                         *)
 (* BUG  cs.bug = TRUE models the block ends as written at the pinned       *)
-(* commit, `inds = [...] + [len(c2as) - 1]` (unitcell.py:709): the last    *)
-(* pair of the last block is never examined.  FALSE = `len(c2as)`.         *)
+(* commit, `inds = [...] + [len(c2as) - 1]`: the last pair of the last     *)
+(* block is never examined.  FALSE = `len(c2as)`.                          *)
 (*                                                                         *)
 (* PROPERTY (independent of the block machine)                             *)
 (*   Complete    at "done": every pair of the two rings with |cos| < 0.98  *)
-(*               is equivalent to a kept pair        (fails for bug=TRUE)  *)
+(*               is equivalent to a kept pair   (CompleteAsIs: the same    *)
+(*               for bug = TRUE, FAILS for triclinic forms)                *)
 (*   Irredundant no two kept pairs are equivalent                          *)
 (*   NoCrash     the len(c) = 0 branch is unreachable (rings contain -h    *)
-(*               with h, so blocks have even length)                       *)
-(*   BlocksExact kept pairs are in non-decreasing N; positions increase    *)
+(*               with h, so blocks have even length: EvenBlocks)           *)
+(*   BlocksExact kept pairs are in non-decreasing N; positions increase;   *)
+(*               the first pair of every block with |cos| < 0.98 is kept   *)
 (*   DedupAgrees inside one block UbiEquiv = Equiv                         *)
-(*   TrueFound   at "out" (crange mode, bug=FALSE): every pair of the      *)
-(*               observed block is equivalent to exactly one class member  *)
-(*               representative; classes are pairwise inequivalent         *)
-(*   AutGroup    Aut+(G) is a group of the expected order                  *)
+(*   TrueFound   at "out" (crange mode, bug = FALSE): every pair of the    *)
+(*               observed block is equivalent to a member of exactly one   *)
+(*               class; classes are disjoint and pairwise inequivalent     *)
+(*   CellLaws    Aut+(G) is a group of the expected order, nothing missed  *)
+(*               by the box; ring boxes complete                           *)
+(*   CacheFresh  an entry handed out by getanglehkls was computed under    *)
+(*               the ringtol in force                                      *)
 (*                                                                         *)
-(* BOUNDS  Cells (named lattices, first NR rings each), all ordered ring   *)
-(* pairs (RingPairs), TieRules, BugEnds, CRanges; chosen in the .cfg.      *)
+(* BOUNDS  Cells (18 named lattices: cubic P/I/F, tetragonal P/I and a     *)
+(* pseudo-symmetric one, hexagonal P/R, orthorhombic P/C/F and a pseudo-   *)
+(* symmetric one, monoclinic P/C, rhombohedral acute/obtuse, two           *)
+(* triclinic), first NR rings, ordered ring pairs (PairSel), TieRules,     *)
+(* BugEnds, CRanges, Rots; chosen in the .cfg files.                       *)
 (***************************************************************************)
 EXTENDS ExactLA, Json, IOUtils, SequencesExt
 
@@ -106,15 +124,15 @@ CellsAll == {
    C("tetI",  Sym(2,2,3,0,0,0), "I", 2, 8),
    C("tetPs", Sym(1,1,2,0,0,0), "P", 2, 8),          \* pseudo-symmetric: Q(110) = Q(001)
    C("hexP",  Sym(2,2,3,0,0,1), "P", 2, 12),
-   C("hexR",  Sym(2,2,1,0,0,1), "R", 3, 12),
+   C("hexR",  Sym(2,2,5,0,0,1), "R", 3, 12),
    C("ortP",  Sym(2,3,5,0,0,0), "P", 2, 4),
    C("ortC",  Sym(2,3,5,0,0,0), "C", 2, 4),
    C("ortF",  Sym(2,3,5,0,0,0), "F", 3, 4),
    C("ortPs", Sym(3,4,7,0,0,0), "P", 2, 4),          \* pseudo-symmetric: Q(110) = Q(001)
    C("monP",  Sym(3,2,5,0,1,0), "P", 2, 2),
-   C("monC",  Sym(3,2,5,0,1,0), "C", 2, 2),
+   C("monC",  Sym(3,2,5,0,1,0), "C", 3, 2),
    C("rhoP",  Sym(3,3,3,1,1,1), "P", 2, 6),
-   C("rhoO",  Sym(3,3,3,-1,-1,-1), "P", 2, 6),
+   C("rhoO",  Sym(4,4,4,-1,-1,-1), "P", 2, 6),
    C("triP",  Sym(4,5,7,2,1,1), "P", 2, 1),
    C("triQ",  Sym(3,4,5,1,-1,1), "P", 2, 1) }
 Cells_q == { c \in CellsAll : c.id \in {"cubF", "hexP", "monP", "triP"} }
@@ -152,24 +170,17 @@ Box(K) == { h \in (-K..K) \X (-K..K) \X (-K..K) : h # <<0,0,0>> }
 \* no vector with a coordinate beyond K has Q <= q :  h_i^2 <= Q (G^-1)_ii = Q Adj_ii / det
 BoxOK(G, K, q) == \A i \in Idx : (K + 1)*(K + 1)*Det(G) > q*AdjD(G)[i]
 
-SetMin(S) == CHOOSE x \in S : \A y \in S : x <= y
-RECURSIVE FirstN(_, _)
-FirstN(S, n) == IF n = 0 \/ S = {} THEN <<>> ELSE LET m == SetMin(S) IN <<m>> \o FirstN(S \ {m}, n - 1)
+\* the n smallest members of a set of integers, ascending
+FirstN(S, n) == SetToSortSeq({ x \in S : Cardinality({ y \in S : y < x }) < n }, <)
 
 AllowedBox(c) == { h \in Box(c.box) : ~Absent(c.cen, h) }
-\* TLCEval: evaluate these constant tables once (TLC applies [x \in S |-> e] lazily, without memo)
-RingQsOf == TLCEval([c \in Cells |-> FirstN({ QF(c.G, h, h) : h \in AllowedBox(c) }, NR)])
-RingSetOf == TLCEval([c \in Cells |-> [r \in 1..NR |-> { h \in AllowedBox(c) : QF(c.G, h, h) = RingQsOf[c][r] }]])
-RingsCompleteFor(c) == Len(RingQsOf[c]) = NR /\ BoxOK(c.G, c.box, RingQsOf[c][NR])
-
-LexLess(u, v) == \/ u[1] < v[1] \/ (u[1] = v[1] /\ u[2] < v[2])
-                 \/ (u[1] = v[1] /\ u[2] = v[2] /\ u[3] < v[3])
-RingSeqOf == TLCEval([c \in Cells |-> [r \in 1..NR |-> SortSeq(SetToSeq(RingSetOf[c][r]), LexLess)]])
+RingQs(c) == FirstN({ QF(c.G, h, h) : h \in AllowedBox(c) }, NR)
+\* the ring with Q = q, in TLC's (deterministic) enumeration order of the set
+RingSeq(c, q) == SetToSeq({ h \in AllowedBox(c) : QF(c.G, h, h) = q })
 
 (* ---------------- Aut+(G) by brute force ------------------------------------------------------- *)
-RECURSIVE MinK(_, _, _)
-MinK(G, q, K) == IF BoxOK(G, K, q) THEN K ELSE MinK(G, q, K + 1)
-AutBox(G) == MinK(G, Max2(G[1][1], Max2(G[2][2], G[3][3])), 1)
+AutBox(G) == LET q == Max2(G[1][1], Max2(G[2][2], G[3][3]))
+             IN CHOOSE K \in 1..12 : BoxOK(G, K, q) /\ \A K2 \in 1..(K - 1) : ~BoxOK(G, K2, q)
 AutP(G) == LET K == AutBox(G)
                V(i) == { v \in Box(K) : QF(G, v, v) = G[i][i] }
            IN { M2T(Transpose(<<c1, c2, c3>>)) : <<c1, c2, c3>> \in
@@ -177,24 +188,15 @@ AutP(G) == LET K == AutBox(G)
                        /\ QF(G, t[1], t[2]) = G[1][2] /\ QF(G, t[1], t[3]) = G[1][3]
                        /\ QF(G, t[2], t[3]) = G[2][3]
                        /\ Det(<<t[1], t[2], t[3]>>) = 1 } }
-AutOf == TLCEval([c \in Cells |-> AutP(c.G)])
 \* independent statement of membership (entries of M, not columns): M^T G M = G, det = 1
 IsAut(G, M) == M2T(MM(MM(Transpose(M), G), M)) = G /\ Det(M) = 1
-AutGroupFor(c) ==
-    LET A == AutOf[c] IN
+AutGroupFor(c, A) ==
     /\ Cardinality(A) = c.naut
     /\ I3 \in A
     /\ \A M \in A : IsAut(c.G, M) /\ M2T(Adj(M)) \in A
     /\ \A M1, M2 \in A : M2T(MM(M1, M2)) \in A
     \* the brute force of DESIGN.md (all matrices with entries -1..1) finds nothing else
     /\ \A M \in [Idx -> [Idx -> {-1, 0, 1}]] : (Det(M) = 1 /\ IsAut(c.G, M)) => M2T(M) \in A
-
-Equiv(c, x, y) == \E M \in AutOf[c] : MV(M, x[1]) = y[1] /\ MV(M, x[2]) = y[2]
-\* same orientation from the same observed g1, g2 (any angle): triad of x is mapped on triad of y
-SameSense(u, v) == Cross(u, v) = <<0,0,0>> /\ Dot(u, v) > 0
-UbiEquiv(c, x, y) == \E M \in AutOf[c] :
-      /\ MV(M, x[1]) = y[1]
-      /\ SameSense(Cross(y[1], MV(M, x[2])), Cross(y[1], y[2]))
 
 (* ---------------- cases ------------------------------------------------------------------------- *)
 Traces == IF MODE = "trace" THEN ndJsonDeserialize(IOEnv.TRACE_FILE) ELSE <<>>
@@ -204,117 +206,140 @@ RingPairs == CASE PairSel = "all"   -> (1..NR) \X (1..NR)
                [] PairSel = "upper" -> { rp \in (1..NR) \X (1..NR) : rp[1] <= rp[2] }
                [] PairSel = "low"   -> { rp \in (1..NR) \X (1..NR) : rp[1] <= rp[2] /\ rp[2] <= 3 }
 
-VARIABLES cs, pc, order, inds, bi, p, j, kept, first, obs, lmode, cand, ubil
-vars == <<cs, pc, order, inds, bi, p, j, kept, first, obs, lmode, cand, ubil>>
+VARIABLES cs, tab, pc, order, inds, bi, p, j, kept, first, obs, lmode, cand, ubil
+vars == <<cs, tab, pc, order, inds, bi, p, j, kept, first, obs, lmode, cand, ubil>>
 
-cell == CellById(cs.cell)
+\* The tables of a case are computed once, in Init, and carried in the state variable `tab`
+\* (TLC evaluates definitions lazily and would recompute rings and group in every state):
+\*   ghost "cell" states : [qs, rings, aut]      case states : [q1, q2, h1, h2, aut]
+\* (`\E v \in {e}` binds v to the evaluated e.)
+CellTab(c) == \E qs \in {RingQs(c)} : \E A \in {AutP(c.G)} :
+                 tab = [qs |-> qs, rings |-> [r \in 1..NR |-> RingSeq(c, qs[r])], aut |-> A]
+CaseTab(c, r1, r2) == \E qs \in {RingQs(c)} : \E A \in {AutP(c.G)} :
+                 tab = [q1 |-> qs[r1], q2 |-> qs[r2], h1 |-> RingSeq(c, qs[r1]), h2 |-> RingSeq(c, qs[r2]), aut |-> A]
+
+cell == cs.cell                             \* the cell record
 G0 == cell.G
-Q1 == RingQsOf[cell][cs.r1]
-Q2 == RingQsOf[cell][cs.r2]
+Q1 == tab.q1
+Q2 == tab.q2
 N == Len(order)
-Ord(x) == order[x + 1]                      \* 0-based access, as the code's hi[x], hj[x]
-NK(x) == QF(G0, Ord(x)[1], Ord(x)[2])       \* the sort key (cos * sqrt(Q1 Q2))
-NKp(pr) == QF(G0, pr[1], pr[2])
+\* order[x+1] = <<N, f, ha, hb>> : c2as[x], order[x] (flat index), h1[hi[x]], h2[hj[x]]  (0-based x as in the code)
+Ord(x) == <<order[x + 1][3], order[x + 1][4]>>
+NK(x) == order[x + 1][1]                    \* the sort key N = ha.G.hb = cos * sqrt(Q1 Q2)
 SmallN(n) == 2500*n*n < 2401*Q1*Q2          \* abs(cos) < 0.98
 Small(x) == SmallN(NK(x))
 
-\* the pairs in mgrid order: flat index f = i*len(h2) + j
-FlatPairs(c, r1, r2) ==
-    LET a == RingSeqOf[c][r1]  b == RingSeqOf[c][r2] IN
-    [f \in 1..(Len(a)*Len(b)) |-> << a[((f - 1) \div Len(b)) + 1], b[((f - 1) % Len(b)) + 1] >>]
-RuleOrder(c, r1, r2, tie) ==
-    LET fp == FlatPairs(c, r1, r2)
-        key == [f \in DOMAIN fp |-> QF(c.G, fp[f][1], fp[f][2])]
-        less(a, b) == \/ key[a] < key[b]
-                      \/ (key[a] = key[b] /\ IF tie = "fwd" THEN a < b ELSE a > b)
-        perm == SortSeq([f \in DOMAIN fp |-> f], less)
-    IN [x \in DOMAIN fp |-> fp[perm[x]]]
+Equiv(x, y) == \E M \in tab.aut : MV(M, x[1]) = y[1] /\ MV(M, x[2]) = y[2]
+\* same orientation from the same observed g1, g2 (any angle): triad of x is mapped on triad of y
+SameSense(u, v) == Cross(u, v) = <<0,0,0>> /\ Dot(u, v) > 0
+UbiEquiv(x, y) == \E M \in tab.aut :
+      /\ MV(M, x[1]) = y[1]
+      /\ SameSense(Cross(y[1], MV(M, x[2])), Cross(y[1], y[2]))
 
-\* a recorded order is acceptable iff it is a permutation of ring1 x ring2 in non-decreasing N
-ValidTrace(c, r1, r2, o) ==
-    /\ Len(o) = Cardinality(RingSetOf[c][r1]) * Cardinality(RingSetOf[c][r2])
-    /\ \A x \in DOMAIN o : o[x][1] \in RingSetOf[c][r1] /\ o[x][2] \in RingSetOf[c][r2]
-    /\ Cardinality({ o[x] : x \in DOMAIN o }) = Len(o)
-    /\ \A x \in 1..(Len(o) - 1) : QF(c.G, o[x][1], o[x][2]) <= QF(c.G, o[x + 1][1], o[x + 1][2])
+\* the pairs in mgrid order (flat index f = i*len(h2) + j), tagged with their key and flat index
+Tagged ==
+    [f \in 1..(Len(tab.h1)*Len(tab.h2)) |->
+        << QF(G0, tab.h1[((f - 1) \div Len(tab.h2)) + 1], tab.h2[((f - 1) % Len(tab.h2)) + 1]), f,
+           tab.h1[((f - 1) \div Len(tab.h2)) + 1], tab.h2[((f - 1) % Len(tab.h2)) + 1] >>]
+LessFwd(u, v) == u[1] < v[1] \/ (u[1] = v[1] /\ u[2] < v[2])
+LessRev(u, v) == u[1] < v[1] \/ (u[1] = v[1] /\ u[2] > v[2])
+RuleOrder(tie) == IF tie = "fwd" THEN SortSeq(Tagged, LessFwd) ELSE SortSeq(Tagged, LessRev)
+TraceOrder(t) == [x \in DOMAIN Traces[t].order |->
+                       << QF(G0, Traces[t].order[x][1], Traces[t].order[x][2]), x,
+                          Traces[t].order[x][1], Traces[t].order[x][2] >>]
 
-\* inds = list(np.arange(1, len(dc)+1)[dc]) + [len(c2as) - 1]      (unitcell.py:708-709)
-IndsOf(c, o, bug) ==
-    LET n == Len(o)
-        key(x) == QF(c.G, o[x + 1][1], o[x + 1][2])
-        S == { i \in 1..(n - 1) : key(i) > key(i - 1) }
-    IN SortSeq(SetToSeq(S), <) \o << IF bug THEN n - 1 ELSE n >>
+\* a (recorded) order is acceptable iff it is a permutation of ring1 x ring2 in non-decreasing N
+ValidOrder == \E S1 \in {Range(tab.h1)} : \E S2 \in {Range(tab.h2)} :
+    /\ Len(order) = Len(tab.h1) * Len(tab.h2)
+    /\ \A x \in DOMAIN order : order[x][3] \in S1 /\ order[x][4] \in S2
+    /\ Cardinality({ <<order[x][3], order[x][4]>> : x \in DOMAIN order }) = Len(order)
+    /\ \A x \in 1..(Len(order) - 1) : order[x][1] <= order[x + 1][1]
+
+\* inds = list(np.arange(1, len(dc)+1)[dc]) + [len(c2as) - 1]      (filter_pairs 677-678)
+IndsNow(bug) ==
+    SortSeq(SetToSeq({ i \in 1..(Len(order) - 1) : order[i + 1][1] > order[i][1] }), <)
+       \o << IF bug THEN Len(order) - 1 ELSE Len(order) >>
 
 Blank == /\ order = <<>> /\ inds = <<>> /\ bi = 0 /\ p = 0 /\ j = 0 /\ kept = <<>> /\ first = 0
          /\ obs = 0 /\ lmode = 0 /\ cand = <<>> /\ ubil = {}
 Init == /\ Blank
-        /\ \/ /\ pc = "cell"
-              /\ cs \in [cell : {c.id : c \in Cells}, r1 : {0}, r2 : {0}, tie : {"-"}, bug : {FALSE}, t : {0}]
+        /\ \/ /\ pc = "cell" /\ MODE = "rule"
+              /\ cs \in [cell : Cells, r1 : {0}, r2 : {0}, tie : {"-"}, bug : {FALSE}, t : {0}]
+              /\ CellTab(cs.cell)
            \/ /\ pc = "sort" /\ MODE = "rule"
               /\ \E rp \in RingPairs :
-                   cs \in [cell : {c.id : c \in Cells}, r1 : {rp[1]}, r2 : {rp[2]}, tie : TieRules,
+                   cs \in [cell : Cells, r1 : {rp[1]}, r2 : {rp[2]}, tie : TieRules,
                            bug : BugEnds, t : {0}]
+              /\ CaseTab(cs.cell, cs.r1, cs.r2)
            \/ /\ pc = "sort" /\ MODE = "trace"
               /\ \E t \in 1..NT :
-                   cs \in [cell : {Traces[t].cell}, r1 : {Traces[t].r1}, r2 : {Traces[t].r2}, tie : {"trace"},
+                   cs \in [cell : {CellById(Traces[t].cell)}, r1 : {Traces[t].r1}, r2 : {Traces[t].r2}, tie : {"trace"},
                            bug : BugEnds, t : {t}]
+              /\ CaseTab(cs.cell, cs.r1, cs.r2)
 
 keepLater == <<obs, lmode, cand, ubil>>
 
 PrintCell == /\ pc = "cell" /\ pc' = "celldone"
-             /\ UNCHANGED <<cs, order, inds, bi, p, j, kept, first, keepLater>>
+             /\ UNCHANGED <<cs, tab, order, inds, bi, p, j, kept, first, keepLater>>
 
-\* order = np.argsort(c2a.ravel()) ... inds = ...; p = 0          (unitcell.py:698-710)
+\* order = np.argsort(c2a.ravel()); c2as = ...; hi, hj = ...      (filter_pairs 667-671)
 SortPairs ==
     /\ pc = "sort"
-    /\ LET o == IF MODE = "trace" THEN Traces[cs.t].order ELSE RuleOrder(cell, cs.r1, cs.r2, cs.tie) IN
-       IF MODE = "trace" /\ ~ValidTrace(cell, cs.r1, cs.r2, o)
-       THEN pc' = "badtrace" /\ UNCHANGED <<order, inds, bi>>
-       ELSE order' = o /\ inds' = IndsOf(cell, o, cs.bug) /\ bi' = 1 /\ pc' = "open"
-    /\ UNCHANGED <<cs, p, j, kept, first, keepLater>>
+    /\ order' = IF MODE = "trace" THEN TraceOrder(cs.t) ELSE RuleOrder(cs.tie)
+    /\ pc' = "cluster"
+    /\ UNCHANGED <<cs, tab, inds, bi, p, j, kept, first, keepLater>>
+\* dc = ...; inds = ...; p = 0                                     (filter_pairs 677-679)
+Cluster ==
+    /\ pc = "cluster"
+    /\ IF ValidOrder
+       THEN inds' = IndsNow(cs.bug) /\ bi' = 1 /\ pc' = "open"
+       ELSE pc' = "badtrace" /\ UNCHANGED <<inds, bi>>
+    /\ UNCHANGED <<cs, tab, order, p, j, kept, first, keepLater>>
 
 InLoop == pc = "open" /\ bi <= Len(inds)
 I == inds[bi]
-\* else: p = i; continue                                           (unitcell.py:720-722)
+\* else: p = i; continue                                           (filter_pairs 689-691)
 SkipBlock  == /\ InLoop /\ ~Small(p)
               /\ p' = I /\ bi' = bi + 1
-              /\ UNCHANGED <<cs, pc, order, inds, j, kept, first, keepLater>>
-\* keep the first one; if len(c) == 1: p = i; continue             (unitcell.py:713-725)
+              /\ UNCHANGED <<cs, tab, pc, order, inds, j, kept, first, keepLater>>
+\* keep the first one; if len(c) == 1: p = i; continue             (filter_pairs 682-694)
 KeepSingle == /\ InLoop /\ Small(p) /\ I - p = 1
               /\ kept' = Append(kept, p) /\ first' = Len(kept) + 1
               /\ p' = I /\ bi' = bi + 1
-              /\ UNCHANGED <<cs, pc, order, inds, j, keepLater>>
-\* c = c2as[p:i] is empty: c.max() raises ValueError              (unitcell.py:726)
+              /\ UNCHANGED <<cs, tab, pc, order, inds, j, keepLater>>
+\* c = c2as[p:i] is empty: c.max() raises ValueError              (filter_pairs 695)
 KeepCrash  == /\ InLoop /\ Small(p) /\ I - p = 0
               /\ kept' = Append(kept, p) /\ first' = Len(kept) + 1
               /\ pc' = "crash"
-              /\ UNCHANGED <<cs, order, inds, bi, p, j, keepLater>>
-\* gtest = [orientation of the first pair]; for j in range(p+1, i) (unitcell.py:730-737)
+              /\ UNCHANGED <<cs, tab, order, inds, bi, p, j, keepLater>>
+\* gtest = [orientation of the first pair]; for j in range(p+1, i) (filter_pairs 699-706)
 KeepFirst  == /\ InLoop /\ Small(p) /\ I - p > 1
               /\ kept' = Append(kept, p) /\ first' = Len(kept) + 1
               /\ j' = p + 1 /\ pc' = "test"
-              /\ UNCHANGED <<cs, order, inds, bi, p, keepLater>>
-KnownHere(x) == \E k \in first..Len(kept) : Equiv(cell, Ord(kept[k]), Ord(x))
-\* npk == 15 for some gt: newpair = False                          (unitcell.py:742-748)
+              /\ UNCHANGED <<cs, tab, order, inds, bi, p, keepLater>>
+KnownHere(x) == \E k \in first..Len(kept) : Equiv(Ord(kept[k]), Ord(x))
+\* (M in Aut+ preserves the form, so equivalent pairs have equal N: the N test below only saves time)
+\* npk == 15 for some gt: newpair = False                          (filter_pairs 711-717)
 TestSame   == /\ pc = "test" /\ j < I /\ KnownHere(j)
               /\ j' = j + 1
-              /\ UNCHANGED <<cs, pc, order, inds, bi, p, kept, first, keepLater>>
-\* if newpair: pairs.append(...)                                   (unitcell.py:749-753)
+              /\ UNCHANGED <<cs, tab, pc, order, inds, bi, p, kept, first, keepLater>>
+\* if newpair: pairs.append(...)                                   (filter_pairs 718-722)
 TestNew    == /\ pc = "test" /\ j < I /\ ~KnownHere(j)
               /\ kept' = Append(kept, j) /\ j' = j + 1
-              /\ UNCHANGED <<cs, pc, order, inds, bi, p, first, keepLater>>
-\* p = i                                                           (unitcell.py:754)
+              /\ UNCHANGED <<cs, tab, pc, order, inds, bi, p, first, keepLater>>
+\* p = i                                                           (filter_pairs 723)
 CloseBlock == /\ pc = "test" /\ j = I
               /\ p' = I /\ bi' = bi + 1 /\ pc' = "open"
-              /\ UNCHANGED <<cs, order, inds, j, kept, first, keepLater>>
+              /\ UNCHANGED <<cs, tab, order, inds, j, kept, first, keepLater>>
 Finish     == /\ pc = "open" /\ bi > Len(inds)
               /\ pc' = "done"
-              /\ UNCHANGED <<cs, order, inds, bi, p, j, kept, first, keepLater>>
+              /\ UNCHANGED <<cs, tab, order, inds, bi, p, j, kept, first, keepLater>>
 
 (* ---------------- orient(): lookup and de-duplication -------------------------------------------- *)
 KeptN(k) == NK(kept[k])
 BlockNs == { NK(x) : x \in 0..(N - 1) }
-\* crange > 0 : best = arange(len(c2ab))[abs(c2ab - costheta) < crange]       (unitcell.py:565-566)
-\* else       : the nearest entry (searchsorted + neighbour comparison, 570-575); entries of the
+\* crange > 0 : best = arange(len(c2ab))[abs(c2ab - costheta) < crange]       (orient 534-535)
+\* else       : the nearest entry (searchsorted + neighbour comparison, 539-544); entries of the
 \*              observed block are at distance ~1e-16 of each other: any of them may be returned
 InRange(k, n, cr) == 1000000*(KeptN(k) - n)*(KeptN(k) - n) < cr*cr*Q1*Q2
 Nearest(n) == LET d(k) == Abs(KeptN(k) - n)
@@ -325,25 +350,50 @@ Lookup == /\ pc = "done" /\ kept # <<>>
                /\ cand' = IF cr = 0 THEN SetToSortSeq(Nearest(n), <)
                           ELSE SetToSortSeq({ k \in DOMAIN kept : InRange(k, n, cr) }, <)
           /\ pc' = "cand"
-          /\ UNCHANGED <<cs, order, inds, bi, p, j, kept, first, ubil>>
+          /\ UNCHANGED <<cs, tab, order, inds, bi, p, j, kept, first, ubil>>
 \* ubi_equiv: one orientation per class (nearest mode: the single candidate, whichever it was)
-ClassOf(k, S) == { k2 \in S : UbiEquiv(cell, Ord(kept[k]), Ord(kept[k2])) }
+ClassOf(k, S) == { k2 \in S : UbiEquiv(Ord(kept[k]), Ord(kept[k2])) }
 Dedup  == /\ pc = "cand"
           /\ LET S == { cand[x] : x \in DOMAIN cand } IN
              ubil' = IF lmode = 0 THEN { {k} : k \in S } ELSE { ClassOf(k, S) : k \in S }
           /\ pc' = "out"
-          /\ UNCHANGED <<cs, order, inds, bi, p, j, kept, first, obs, lmode, cand>>
+          /\ UNCHANGED <<cs, tab, order, inds, bi, p, j, kept, first, obs, lmode, cand>>
 
-Next == PrintCell \/ SortPairs \/ SkipBlock \/ KeepSingle \/ KeepCrash \/ KeepFirst
+Next == PrintCell \/ SortPairs \/ Cluster \/ SkipBlock \/ KeepSingle \/ KeepCrash \/ KeepFirst
         \/ TestSame \/ TestNew \/ CloseBlock \/ Finish \/ Lookup \/ Dedup
 Spec == Init /\ [][Next]_vars
+
+(* ---------------- getanglehkls: the per ring pair cache (unitcell.py getanglehkls) ----------------- *)
+\* A second, tiny machine on the same variables (INIT InitCache / NEXT NextCache, Orient_cache.cfg):
+\* cs = [tol, ctol, cache, hist, ret]: current ringtol version, the version stored in the cache header,
+\* the entries <<key, version they were computed under>>, the operation history (emitted for replay)
+\* and the entry returned by the last get.  makerings(limit, tol') changes ringtol (and the ring table);
+\* getanglehkls drops every entry when the header's ringtol differs, then computes on a miss.
+CKeys == { <<1, 1>>, <<1, 2>>, <<2, 1>> }
+CDEPTH == 5
+InitCache == /\ pc = "cache" /\ tab = <<>> /\ Blank
+             /\ cs = [tol |-> 1, ctol |-> 1, cache |-> {}, hist |-> <<>>, ret |-> <<>>]
+CGet(k) == /\ pc = "cache" /\ Len(cs.hist) < CDEPTH
+           /\ \E c0 \in { IF cs.tol # cs.ctol THEN {} ELSE cs.cache } :
+              \E c1 \in { IF \E e \in c0 : e[1] = k THEN c0 ELSE c0 \cup { <<k, cs.tol>> } } :
+                cs' = [cs EXCEPT !.ctol = cs.tol, !.cache = c1,
+                                 !.hist = Append(@, <<"get", k[1], k[2], IF c1 = c0 THEN 1 ELSE 0>>),
+                                 !.ret = CHOOSE e \in c1 : e[1] = k]
+           /\ UNCHANGED <<tab, pc, order, inds, bi, p, j, kept, first, keepLater>>
+CRetol  == /\ pc = "cache" /\ Len(cs.hist) < CDEPTH
+           /\ cs' = [cs EXCEPT !.tol = 3 - cs.tol, !.hist = Append(@, <<"retol", 3 - cs.tol, 0, 0>>)]
+           /\ UNCHANGED <<tab, pc, order, inds, bi, p, j, kept, first, keepLater>>
+NextCache == CRetol \/ \E k \in CKeys : CGet(k)
+\* what is handed out was computed from the ring table in force
+CacheFresh == (pc = "cache" /\ cs.ret # <<>> /\ cs.hist[Len(cs.hist)][1] = "get") => cs.ret[2] = cs.tol
+EmitCache == (pc = "cache" /\ Len(cs.hist) = CDEPTH) => PrintT("@@" \o ToJson([kind |-> "cache", hist |-> cs.hist]))
 
 (* ---------------- the property ----------------------------------------------------------------------- *)
 AtEnd == pc \in {"done", "cand", "out"}
 KeptPairs == { Ord(kept[k]) : k \in DOMAIN kept }
-RepsOf(x) == { k \in DOMAIN kept : Equiv(cell, Ord(kept[k]), Ord(x)) }
+RepsOf(x) == { k \in DOMAIN kept : KeptN(k) = NK(x) /\ Equiv(Ord(kept[k]), Ord(x)) }
 CompleteNow == \A x \in 0..(N - 1) : Small(x) => RepsOf(x) # {}
-IrredundantNow == \A k1, k2 \in DOMAIN kept : k1 # k2 => ~Equiv(cell, Ord(kept[k1]), Ord(kept[k2]))
+IrredundantNow == \A k1, k2 \in DOMAIN kept : (k1 # k2 /\ KeptN(k1) = KeptN(k2)) => ~Equiv(Ord(kept[k1]), Ord(kept[k2]))
 Complete    == (pc = "done" /\ ~cs.bug) => CompleteNow
 CompleteAsIs == (pc = "done" /\ cs.bug) => CompleteNow           \* expected to FAIL (Orient_asis.cfg)
 Irredundant == pc = "done" => IrredundantNow
@@ -356,29 +406,33 @@ BlocksExact == pc = "done" =>
                         (\E k \in DOMAIN kept : kept[k] = x)
 DedupAgrees == pc = "done" =>
                  \A x, y \in 0..(N - 1) : (NK(x) = NK(y) /\ Small(x)) =>
-                        (UbiEquiv(cell, Ord(x), Ord(y)) <=> Equiv(cell, Ord(x), Ord(y)))
+                        (UbiEquiv(Ord(x), Ord(y)) <=> Equiv(Ord(x), Ord(y)))
 \* equal angle blocks are closed under Friedel inversion of both members: even length
 EvenBlocks  == pc = "done" => \A n \in BlockNs : Cardinality({ x \in 0..(N - 1) : NK(x) = n }) % 2 = 0
 TrueFound   == (pc = "out" /\ lmode > 0 /\ ~cs.bug) =>
                  /\ \A x \in 0..(N - 1) : NK(x) = obs =>
-                      Cardinality({ cl \in ubil : \E k \in cl : Equiv(cell, Ord(kept[k]), Ord(x)) }) = 1
+                      Cardinality({ cl \in ubil : \E k \in cl : Equiv(Ord(kept[k]), Ord(x)) }) = 1
                  /\ \A c1, c2 \in ubil : c1 # c2 =>
-                      \A k1 \in c1, k2 \in c2 : ~UbiEquiv(cell, Ord(kept[k1]), Ord(kept[k2]))
+                      \A k1 \in c1, k2 \in c2 : ~UbiEquiv(Ord(kept[k1]), Ord(kept[k2]))
                  /\ \A c1, c2 \in ubil : c1 # c2 => c1 \cap c2 = {}
 \* constant-level laws, evaluated once per cell (in the ghost "cell" states)
-CellLaws == pc = "celldone" => (RingsCompleteFor(cell) /\ AutGroupFor(cell))
-TypeOK == /\ pc \in {"cell", "celldone", "sort", "open", "test", "crash", "done", "cand", "out", "badtrace"}
+CellLaws == pc = "celldone" => /\ Len(tab.qs) = NR /\ BoxOK(G0, cell.box, tab.qs[NR])
+                               /\ AutGroupFor(cell, tab.aut)
+\* the harness' crange values never put a kept pair exactly on the boundary |cos_k - cos_obs| = crange
+\* (there the float comparison of the code would be decided by rounding)
+NoBoundaryTie == pc = "cand" => \A k \in DOMAIN kept :
+                    lmode = 0 \/ 1000000*(KeptN(k) - obs)*(KeptN(k) - obs) # lmode*lmode*Q1*Q2
+TypeOK == /\ pc \in {"cache", "cell", "celldone", "sort", "cluster", "open", "test", "crash", "done", "cand", "out", "badtrace"}
           /\ pc \in {"open", "test"} => (p <= N /\ (bi <= Len(inds) => p <= I))
 
 (* ---------------- emission --------------------------------------------------------------------------- *)
 Seq2(S) == SetToSortSeq(S, <)
 EmitCell == pc = "celldone" =>
-   PrintT("@@" \o ToJson([kind |-> "cell", cell |-> cs.cell, G |-> cell.G, cen |-> cell.cen,
-        qs |-> RingQsOf[cell], rings |-> [r \in 1..NR |-> RingSeqOf[cell][r]],
-        aut |-> SetToSeq(AutOf[cell]),
+   PrintT("@@" \o ToJson([kind |-> "cell", cell |-> cs.cell.id, G |-> cell.G, cen |-> cell.cen,
+        qs |-> tab.qs, rings |-> tab.rings, aut |-> SetToSeq(tab.aut),
         rots |-> SetToSeq({ [num |-> RotNum(t), den |-> RotDen(t)] : t \in Rots })]))
 EmitDone == pc = "done" =>
-   PrintT("@@" \o ToJson([kind |-> "kept", cell |-> cs.cell, r1 |-> cs.r1, r2 |-> cs.r2, tie |-> cs.tie,
+   PrintT("@@" \o ToJson([kind |-> "kept", cell |-> cs.cell.id, r1 |-> cs.r1, r2 |-> cs.r2, tie |-> cs.tie,
         bug |-> cs.bug, t |-> cs.t, n |-> N, q1 |-> Q1, q2 |-> Q2, inds |-> inds,
         kept |-> kept, keptpairs |-> [k \in DOMAIN kept |-> Ord(kept[k])],
         keptn |-> [k \in DOMAIN kept |-> KeptN(k)],
@@ -387,12 +441,12 @@ EmitDone == pc = "done" =>
         reps |-> [x \in 1..N |-> Seq2(RepsOf(x - 1))],
         complete |-> CompleteNow, irredundant |-> IrredundantNow]))
 EmitOut == pc = "out" =>
-   PrintT("@@" \o ToJson([kind |-> "lookup", cell |-> cs.cell, r1 |-> cs.r1, r2 |-> cs.r2, tie |-> cs.tie,
+   PrintT("@@" \o ToJson([kind |-> "lookup", cell |-> cs.cell.id, r1 |-> cs.r1, r2 |-> cs.r2, tie |-> cs.tie,
         bug |-> cs.bug, t |-> cs.t, obs |-> obs, cr |-> lmode, cand |-> cand,
         classes |-> SetToSeq({ Seq2(cl) : cl \in ubil })]))
 EmitCrash == pc = "crash" =>
-   PrintT("@@" \o ToJson([kind |-> "crash", cell |-> cs.cell, r1 |-> cs.r1, r2 |-> cs.r2, tie |-> cs.tie,
+   PrintT("@@" \o ToJson([kind |-> "crash", cell |-> cs.cell.id, r1 |-> cs.r1, r2 |-> cs.r2, tie |-> cs.tie,
         bug |-> cs.bug, t |-> cs.t, kept |-> kept]))
 EmitBad == pc = "badtrace" =>
-   PrintT("@@" \o ToJson([kind |-> "badtrace", cell |-> cs.cell, r1 |-> cs.r1, r2 |-> cs.r2, t |-> cs.t]))
+   PrintT("@@" \o ToJson([kind |-> "badtrace", cell |-> cs.cell.id, r1 |-> cs.r1, r2 |-> cs.r2, t |-> cs.t]))
 =============================================================================
